@@ -109,7 +109,10 @@ def plain(result, depth=0):
         cls = type(result)
         out = {}
         for name in cls.properties:
-            out[name] = plain(getattr(result, name), depth + 1)
+            try:
+                out[name] = plain(getattr(result, name), depth + 1)
+            except AttributeError:
+                out[name] = "<declared property not readable>"
         for key in result._dict:  # noqa: SLF001 - only to enumerate keys
             if key not in out:
                 out[key] = plain(result[key], depth + 1)
